@@ -15,6 +15,7 @@ Install(st) ==
   /\ shares' = st.shares /\ valShares' = st.valShares /\ valTokens' = st.valTokens /\ den' = st.den
   /\ allow' = st.allow /\ accrued' = st.accrued /\ recv' = st.recv /\ ubd' = st.ubd
   /\ inv' = st.inv /\ pay' = st.pay /\ drain' = st.drain /\ exact' = st.exact
+  /\ frac' = st.frac /\ valFrac' = st.valFrac /\ fden' = st.fden
   /\ UNCHANGED cnt
 
 PInit == Init /\ l = 1
